@@ -38,7 +38,8 @@ import (
 type prog struct {
 	Name string `json:"name"`
 	Src  string `json:"src"`
-	Hand bool   `json:"hand"` // handcrafted program aimed at node-resident / process-wide runtime data
+	Hand bool   `json:"hand"`           // handcrafted program aimed at node-resident / process-wide runtime data
+	Deep bool   `json:"deep,omitempty"` // large program: sequential sweep only
 }
 
 // programs that exercise the runtime data living next to the syntax
@@ -91,12 +92,17 @@ func corpus(c *common.Ctx) []prog {
 	for i, s := range hand {
 		ps = append(ps, prog{Name: fmt.Sprintf("hand/%d", i), Src: s, Hand: true})
 	}
+	// quick: C08 corpus to depth 2, C09 corpus to depth 1; thorough: C08 to depth 3
+	// (the deeper programs take part in the sequential sweep only)
 	d8, d9 := 2, 1
 	if c.Thorough() {
-		d8, d9 = 3, 2
+		d8 = 3
 	}
 	n := 0
-	c08.Corpus(c, d8, func(src string) { ps = append(ps, prog{Name: fmt.Sprintf("c08/%d", n), Src: src}); n++ })
+	c08.Corpus(c, d8, func(src string) {
+		ps = append(ps, prog{Name: fmt.Sprintf("c08/%d", n), Src: src, Deep: strings.Count(src, "{") > 6})
+		n++
+	})
 	n = 0
 	c09.Corpus(c, d9, func(src string) { ps = append(ps, prog{Name: fmt.Sprintf("c09/%d", n), Src: src}); n++ })
 	return ps
@@ -227,6 +233,9 @@ func sequential(p prog, stmt ast.Stmt, res *common.Result) (outcome, bool) {
 	}
 	for k := 0; k < 3; k++ {
 		o := normalise(runSolo(stmt, func(i int64) {
+			if p.Deep && i%8 != 0 {
+				return // large programs: the dump is compared at every 8th poll and after each run
+			}
 			res.Add("dump_checks", 1)
 			if astdump.Dump(stmt) != d0 {
 				report("tree-modified/during-run", fmt.Sprintf("the parsed tree differs from its dump before execution at poll %d of run %d", i, k+1))
@@ -324,14 +333,14 @@ func run(c *common.Ctx) *common.Result {
 		}
 		// interleaved part: handcrafted programs and a deterministic slice of the corpus
 		// (every program of the shallow corpora; deeper ones in thorough)
-		if !usable || hasGo(p.Src) || solo.polls < 2 {
+		if !usable || hasGo(p.Src) || solo.polls < 2 || (p.Deep && c.Thorough()) {
 			continue
 		}
 		if !p.Hand {
 			interleaveBudget++
 			every := 60
 			if c.Thorough() {
-				every = 8
+				every = 12
 			}
 			if interleaveBudget%every != 0 {
 				continue
